@@ -216,6 +216,8 @@ func genPlanWith(rnd *rand.Rand, x int, big bool, lanes int64, fixedPool []int64
 		}
 		if !g.started {
 			wRun = 2
+		} else if x != xMulti && rnd.Intn(12) == 0 {
+			wRun = 1 // Run() again on a running executor (guarded by a Once on Line / RunnerQ / ProcChan)
 		}
 		if wSub+wRel+wCan+wStop+wRun == 0 {
 			break
@@ -259,8 +261,12 @@ func genPlanWith(rnd *rand.Rand, x int, big bool, lanes int64, fixedPool []int64
 			p.Acts = append(p.Acts, act{K: "stop"})
 			g.closed = true
 		default:
-			p.Acts = append(p.Acts, act{K: "run"})
-			g.started = true
+			if g.started {
+				p.Acts = append(p.Acts, act{K: "rerun"})
+			} else {
+				p.Acts = append(p.Acts, act{K: "run"})
+				g.started = true
+			}
 		}
 		gsettle()
 	}
@@ -432,6 +438,17 @@ func main() {
 				runSharedGroup(e, e.Rnd.Int63(), st)
 			}
 		}
+		// Run called twice / three times before and after the first submissions: a gated callee and two calls queued behind it
+		if only < 0 || only != xMulti {
+			for _, x := range []int{xLine, xRunner, xProc} {
+				if only >= 0 && only != x {
+					continue
+				}
+				for v := 0; v < 5 && st.hangs < 3; v++ {
+					runPlan(e, rerunPlan(x, v, e.Rnd), st, "-rerun")
+				}
+			}
+		}
 		per := e.Scale(300, 2500)
 		for x := 0; x < 4; x++ {
 			if only >= 0 && x != only {
@@ -522,4 +539,43 @@ func main() {
 		e.Meta["stop_vs_submit_ms"] = raceMs
 		e.Meta["instances"] = map[string]int{"rounds": instRounds, "flagged_by_screen": instFlagged}
 	})
+}
+
+// rerunPlan: variant v = where the extra Run() calls fall (0: twice before any submission, 1: three times before, 2: twice
+// after calls are queued, 3: three times after, 4: before and after)
+func rerunPlan(x int, v int, rnd *rand.Rand) *plan {
+	p := &plan{X: x, Lanes: 1, Q: 0}
+	if x == xProc {
+		p.Q = 4 + rnd.Intn(4)
+	}
+	n := 3 + rnd.Intn(3)
+	for i := 1; i <= n; i++ {
+		p.Calls = append(p.Calls, pcall{ID: i, Fail: rnd.Intn(5) == 0, Form: rnd.Intn(3)})
+	}
+	add := func(k string, c int) { p.Acts = append(p.Acts, act{K: k, C: c}) }
+	add("run", 0)
+	switch v {
+	case 0, 4:
+		add("rerun", 0)
+	case 1:
+		add("rerun", 0)
+		add("rerun", 0)
+	}
+	for i := 1; i <= n; i++ {
+		add("sub", i)
+		if i == 2 && v >= 2 {
+			add("rerun", 0)
+			if v == 3 {
+				add("rerun", 0)
+			}
+		}
+	}
+	if v >= 2 && rnd.Intn(2) == 0 {
+		add("rerun", 0)
+	}
+	for i := 1; i <= n; i++ {
+		add("rel", i)
+	}
+	add("stop", 0)
+	return p
 }
